@@ -127,7 +127,8 @@ def rule_logni(ctx: Ctx) -> List[Ob]:
                 for t in (s.targets if isinstance(s, ast.Assign) else [s.target]):
                     if isinstance(t, ast.Name):
                         tainted.add(t.id)
-        # names computed from tainted names
+        # names computed from tainted names (verbosity flags such as `is_verbose = iprint >= 99 and logger is not None`):
+        # they become sources themselves; the defining statement is checked to be effect-free below
         changed = True
         while changed:
             changed = False
@@ -135,9 +136,9 @@ def rule_logni(ctx: Ctx) -> List[Ob]:
                 if isinstance(s, (ast.Assign, ast.AnnAssign)) and getattr(s, "value", None) is not None and not isinstance(s.value, ast.Call):
                     if any(isinstance(x, ast.Name) and x.id in tainted for x in ast.walk(s.value)):
                         for t in (s.targets if isinstance(s, ast.Assign) else [s.target]):
-                            if isinstance(t, ast.Name) and t.id not in tainted and not all(
-                                    isinstance(x, ast.Name) and x.id in tainted for x in [s.value]):
-                                pass
+                            if isinstance(t, ast.Name) and t.id not in tainted:
+                                tainted.add(t.id)
+                                changed = True
         if not tainted:
             continue
         obs += _check_block(lm, f, f.node.body, tainted, f_helper)
@@ -170,6 +171,22 @@ def _check_block(lm: LogModel, f: Func, stmts: List[ast.stmt], tainted: Set[str]
             obs.append(ob("LOGNI", "logging statement has effect-free arguments", f, s, bad is None,
                           "arguments only read" if bad is None else f"{bad}: logging changes the run", False,
                           construct=short(s, 80)))
+            continue
+        if isinstance(s, (ast.Assign, ast.AnnAssign)) and getattr(s, "value", None) is not None and not isinstance(s.value, ast.Call) \
+                and _tainted_occ(s.value, tainted) and all(isinstance(t, ast.Name) and t.id in tainted
+                                                          for t in (s.targets if isinstance(s, ast.Assign) else [s.target])):
+            bad = lm.effect_free(f, s.value)
+            obs.append(ob("LOGNI", "verbosity flag derived from the logging configuration", f, s, bad is None,
+                          "the flag is itself treated as logging configuration: it may only steer logging-only branches" if bad is None else bad,
+                          False, construct=short(s, 80)))
+            continue
+        if isinstance(s, (ast.Assign, ast.AnnAssign)) and getattr(s, "value", None) is not None and not isinstance(s.value, ast.Call) \
+                and _tainted_occ(s.value, tainted) and all(isinstance(t, ast.Name) and t.id in tainted
+                                                          for t in (s.targets if isinstance(s, ast.Assign) else [s.target])):
+            bad = lm.effect_free(f, s.value)
+            obs.append(ob("LOGNI", "verbosity flag derived from the logging configuration", f, s, bad is None,
+                          "the flag is itself treated as logging configuration: it may only steer logging-only branches" if bad is None else bad,
+                          False, construct=short(s, 80)))
             continue
         if isinstance(s, (ast.Assign, ast.AnnAssign)) and isinstance(getattr(s, "value", None), ast.Call) and lm.is_helper_call(f, s.value):
             bad = lm.effect_free(f, s.value)
